@@ -66,6 +66,8 @@ def translate_c_to_json_ionq(source_circuit):
             json_gates.append({'gate': GATE_JSON_IONQ[gate.name], 'targets': gate.target})
         elif gate.name in {"RX", "RY", "RZ", "PHASE", "XX"}:
             json_gates.append({'gate': GATE_JSON_IONQ[gate.name], 'targets': gate.target, 'rotation': gate.parameter})
+        elif gate.name in {"CRX", "CRY", "CRZ", "CPHASE", "CX", "CY", "CZ", "CNOT"} and not gate.control:
+            raise ValueError(f"Controlled gate '{gate.name}' has no control qubit")
         elif gate.name in {"CRX", "CRY", "CRZ", "CPHASE"}:
             json_gates.append({'gate': GATE_JSON_IONQ[gate.name], 'targets': gate.target, 'controls': gate.control, 'rotation': gate.parameter})
         elif gate.name in {"CX", "CY", "CZ", "CNOT"}:
